@@ -68,16 +68,6 @@ Theorem ssa_to_ttml_styled : forall d, repr_doc (conv_ssa_ttml d) = true -> lega
   exists b, to_ttml_bytes (conv_ssa_ttml d) = Ok b /\ ttml_dec2 b = Ok (ptrunc 1000000 (ssa_to_plain d)).
 Proof. intros d Hr Hl. rewrite <- plain_ssa_ttml. apply to_ttml_plain; assumption. Qed.
 
-Lemma plain_stl_ttml d : ttml_to_plain (conv_stl_ttml d) = stl_to_plain d.
-Proof.
-  unfold ttml_to_plain, conv_stl_ttml, stl_to_plain. cbn [td_items]. rewrite map_map. apply map_ext. intros it.
-  unfold et_item. cbn [ti_st ti_en ti_lines]. f_equal. rewrite map_map. apply map_ext. intros ln.
-  unfold ttml_line_text, stl_line_text. rewrite map_map. reflexivity.
-Qed.
-(* EBU STL -> TTML (the frame rate, the programme title and the mapped language of the GSI block travel as metadata) *)
-Theorem stl_to_ttml_styled : forall d, repr_doc (conv_stl_ttml d) = true -> legal_doc (conv_stl_ttml d) = true ->
-  exists b, to_ttml_bytes (conv_stl_ttml d) = Ok b /\ ttml_dec2 b = Ok (ptrunc 1000000 (stl_to_plain d)).
-Proof. intros d Hr Hl. rewrite <- plain_stl_ttml. apply to_ttml_plain; assumption. Qed.
 
 (* file to file *)
 Corollary convert_srt_ttml_styled : forall data l, read_srt data = Ok l ->
